@@ -18,9 +18,9 @@ structure CfgOk (cfg : Cfg) : Prop where
   hfl : cfg.fl.leadingRepeat = false
   hp : cfg.poison = []
 
-theorem cwR_space : cwR ' ' = 1 := C08.cw_space
-theorem cwR_le_two (c : Char) : cwR c ≤ 2 := C08.cw_le_two c
-theorem cwR_ellipsis : cwR '…' = 1 := C02.rich_widths_admissible.2.2
+theorem cwR_space : cwR ' ' = 1 := cwD_space
+theorem cwR_le_two (c : Char) : cwR c ≤ 2 := cwD_le_two c
+theorem cwR_ellipsis : cwR '…' = 1 := cwD_ellipsis
 
 theorem CfgOk.hsp {cfg : Cfg} (ok : CfgOk cfg) : cfg.cw ' ' = 1 := by rw [ok.hcw]; exact cwR_space
 theorem CfgOk.h2 {cfg : Cfg} (ok : CfgOk cfg) : ∀ c, cfg.cw c ≤ 2 := by rw [ok.hcw]; exact cwR_le_two
@@ -52,6 +52,16 @@ theorem renderAt_chOf (cfg : Cfg) (r : R) (o : Opts) (x : Int) (n : Nat) (hx : x
 /-! ### text -/
 
 theorem good_text (cfg : Cfg) (ok : CfgOk cfg) (t : T) : Good cfg (.text t) := by
+  intro o w hw _ hd
+  rw [render]
+  rw [Dom] at hd
+  refine ⟨text_fits cfg ok.hsp ok.h2 ok.hel ok.hp t o w hw hd.1 hd.2, ?_⟩
+  intro hc
+  rw [closedR] at hc
+  apply text_closed cfg ok.hp t o w
+  simpa [textClosed] using hc
+
+theorem good_str (cfg : Cfg) (ok : CfgOk cfg) (t : T) : Good cfg (.str t) := by
   intro o w hw _ hd
   rw [render]
   rw [Dom] at hd
